@@ -167,6 +167,10 @@ class TrioEventLoop(EventLoop):
             pending = [entry for entry in self._pending_tasks if entry[1] is not scope]
             if len(pending) < len(self._pending_tasks):
                 self._pending_tasks[:] = pending
+                try:
+                    scope.cancel()  # remembered by the scope: removing it again, also inside a later run, reports failure
+                except RuntimeError:
+                    pass
                 return True
             # not pending: a task of a run that is over, or one removed before
         try:
